@@ -71,11 +71,123 @@ func init() {
 	}
 	externals["fmt.Sprintf"] = func(fr *frame, a []value) value { return sprintf(fr, a) }
 	externals["fmt.Errorf"] = func(fr *frame, a []value) value {
-		// %w -> %v for message; wrapping handled crudely: keep first error arg
 		format := a[0].(string)
+		args := a[1].([]value)
 		msg := sprintf(fr, []value{replaceW(format), a[1]})
+		// %w: wrap the operand it applies to (first %w only, like a single-wrap fmt.wrapError)
+		if k := wIndex(format); k >= 0 && k < len(args) {
+			if w, ok := args[k].(iface); ok && w.t != nil {
+				return mkWrapError(fr, msg, w)
+			}
+		}
 		return mkError(fr, msg)
 	}
+}
+
+// wIndex returns the operand index of the first %w verb, or -1.
+func wIndex(format string) int {
+	n := 0
+	for i := 0; i < len(format); i++ {
+		if format[i] != '%' {
+			continue
+		}
+		i++
+		for i < len(format) && (format[i] == '+' || format[i] == '-' || format[i] == '#' || format[i] == ' ' || format[i] == '0' || format[i] == '.' || (format[i] >= '0' && format[i] <= '9')) {
+			i++
+		}
+		if i >= len(format) {
+			break
+		}
+		if format[i] == '%' {
+			continue
+		}
+		if format[i] == 'w' {
+			return n
+		}
+		n++
+	}
+	return -1
+}
+
+func mkWrapError(fr *frame, msg string, wrapped iface) value {
+	pkg := fr.i.prog.ImportedPackage("fmt")
+	t := pkg.Type("wrapError").Object().Type()
+	var v value = structure{msg, wrapped}
+	return iface{t: types.NewPointer(t), v: &v}
+}
+
+func ifaceEq(a, b iface) (eq bool) {
+	defer func() {
+		if recover() != nil {
+			eq = false
+		}
+	}()
+	if a.t == nil || b.t == nil {
+		return a.t == nil && b.t == nil
+	}
+	if !types.Identical(a.t, b.t) {
+		return false
+	}
+	return equals(a.t, a.v, b.v)
+}
+
+func errUnwrap(fr *frame, e iface) []iface {
+	if e.t == nil {
+		return nil
+	}
+	m := findMethod(fr.i, e.t, "Unwrap")
+	if m == nil {
+		return nil
+	}
+	r := call(fr.i, fr, 0, m, []value{e.v})
+	switch x := r.(type) {
+	case iface:
+		if x.t == nil {
+			return nil
+		}
+		return []iface{x}
+	case []value:
+		var out []iface
+		for _, y := range x {
+			if yi, ok := y.(iface); ok && yi.t != nil {
+				out = append(out, yi)
+			}
+		}
+		return out
+	}
+	return nil
+}
+
+func errIs(fr *frame, e, target iface) bool {
+	if e.t == nil || target.t == nil {
+		return e.t == nil && target.t == nil
+	}
+	if ifaceEq(e, target) {
+		return true
+	}
+	if m := findMethod(fr.i, e.t, "Is"); m != nil {
+		if b, ok := call(fr.i, fr, 0, m, []value{e.v, target}).(bool); ok && b {
+			return true
+		}
+	}
+	for _, u := range errUnwrap(fr, e) {
+		if errIs(fr, u, target) {
+			return true
+		}
+	}
+	return false
+}
+
+func init() {
+	externals["errors.Is"] = func(fr *frame, a []value) value { return errIs(fr, a[0].(iface), a[1].(iface)) }
+	externals["errors.Unwrap"] = func(fr *frame, a []value) value {
+		us := errUnwrap(fr, a[0].(iface))
+		if len(us) == 1 {
+			return us[0]
+		}
+		return iface{}
+	}
+	externals["errors.New"] = func(fr *frame, a []value) value { return mkError(fr, a[0].(string)) }
 }
 
 func replaceW(s string) string {
@@ -107,7 +219,6 @@ func init() {
 	delete(externals, "time.Since")
 }
 
-var onceDone = map[*value]bool{}
 
 func init() {
 	ld := func(fr *frame, a []value) value { return *(a[0].(*value)) }
@@ -125,15 +236,6 @@ func init() {
 		return false
 	}
 	externals["sync/atomic.CompareAndSwapInt32"] = externals["sync/atomic.CompareAndSwapUint32"]
-	externals["(*sync.Once).Do"] = func(fr *frame, a []value) value {
-		p := a[0].(*value)
-		if onceDone[p] {
-			return nil
-		}
-		onceDone[p] = true
-		call(fr.i, fr, 0, a[1], nil)
-		return nil
-	}
 }
 
 func init() {
